@@ -649,12 +649,17 @@ func (e *env) witness(sigIDs, preIDs []int, g []int) (sigs []types.Signature, pr
 // sign is like witness for another signature hash (the consensus path signs the input hash
 // of a transaction).
 func (e *env) sign(h types.Hash256, sigIDs []int, g []int) (sigs []types.Signature) {
+	var made [nKeys + 1]*types.Signature // ed25519 signing is deterministic: one signature per key
 	for i, s := range sigIDs {
 		if s < 0 {
 			gs := e.garbSig[g[i%len(g)]%len(e.garbSig)]
 			sigs = append(sigs, gs) // garbage for e.sigHash is garbage for h as well (h differs from both hashes)
 		} else {
-			sigs = append(sigs, e.keys[s].SignHash(h))
+			if made[s] == nil {
+				sig := e.keys[s].SignHash(h)
+				made[s] = &sig
+			}
+			sigs = append(sigs, *made[s])
 		}
 	}
 	return
